@@ -317,7 +317,21 @@ def _replay_all(q, jobs):
             outs.append(_replay_entry(j))
         except BaseException:  # noqa: BLE001
             outs.append(("error", traceback.format_exc(), None))
+    # pools the replays started (process-scheduler cases) must not keep this child alive
+    try:
+        if "vf.schedengine" in sys.modules:
+            sys.modules["vf.schedengine"].shutdown_pools(wait=True)
+        mod = importlib.import_module(jobs[0][0])
+        if hasattr(mod, "TEARDOWN"):
+            mod.TEARDOWN()
+        for ch in mp.active_children():
+            ch.kill()
+    except BaseException:  # noqa: BLE001
+        pass
     q.put(outs)
+    sys.stdout.flush()
+    sys.stderr.flush()
+    os._exit(0)
 
 
 def _replay_entry(args):
